@@ -123,8 +123,11 @@ impl<'xml> Deserializer<'xml> {
                     DeEvent::Start(x)
                 }
 
+                // a CDATA section is character data
+                Event::CData(x) => DeEvent::Text(x.escape().map_err(|_| DeError::InvalidContent)?),
+
                 // ignore the others
-                Event::Comment(_) | Event::CData(_) | Event::Decl(_) | Event::PI(_) | Event::DocType(_) => continue,
+                Event::Comment(_) | Event::Decl(_) | Event::PI(_) | Event::DocType(_) => continue,
             };
             break Ok(de);
         }
@@ -271,7 +274,22 @@ impl<'xml> Deserializer<'xml> {
             }
             DeEvent::Text(x) => {
                 self.consume_peeked();
-                f(x)
+
+                // The character data of an element may arrive in several events
+                // (it can be interrupted by comments, CDATA sections, ...).
+                let mut merged: Option<Vec<u8>> = None;
+                while let DeEvent::Text(next) = self.peek_event()? {
+                    self.consume_peeked();
+                    merged.get_or_insert_with(|| x.to_vec()).extend_from_slice(&next);
+                }
+
+                match merged {
+                    None => f(x),
+                    Some(buf) => {
+                        let escaped = String::from_utf8(buf).map_err(|_| DeError::InvalidContent)?;
+                        f(BytesText::from_escaped(escaped))
+                    }
+                }
             }
             DeEvent::Eof => {
                 self.consume_peeked();
